@@ -47,9 +47,12 @@ def _targets(st):
     if isinstance(st, ast.Assign):
         out = []
         for t in st.targets:
-            if not isinstance(t, ast.Name):
+            if isinstance(t, ast.Name):
+                out.append(t.id)
+            elif isinstance(t, (ast.Tuple, ast.List)) and all(isinstance(e, ast.Name) for e in t.elts):
+                out.extend(e.id for e in t.elts)          # a, b = helper(x)
+            else:
                 return None
-            out.append(t.id)
         return out
     if isinstance(st, ast.AugAssign):
         return [st.target.id] if isinstance(st.target, ast.Name) else None
